@@ -453,4 +453,65 @@ def generalAllowedCtx (itz : Option Int) (m : Mode) (op : Op) (L Rr : List Item)
 def valueAllowedCtx (itz : Option Int) (m : Mode) (op : Op) (L Rr : List Item) : Option (List Out) :=
   valueAllowed m op (L.map (withImplicitTz itz)) (Rr.map (withImplicitTz itz))
 
+/-! ### the default collation (XPath 3.1 §3.7.1: "A eq B" on strings is `fn:compare(A, B) eq 0` with the
+default collation of the static context; F&O 3.1 §5.3) -/
+
+/-- F&O 3.1 §5.3.4 html-ascii-case-insensitive: "ASCII upper-case letters A-Z are mapped to a-z, the
+result is compared codepoint by codepoint"; §5.3.1 the codepoint collation compares the codepoints -/
+def collFold (c : Coll) (s : Str) : Str :=
+  match c with
+  | .codepoint => s
+  | .asciiCI => s.map fun n => if 65 ≤ n ∧ n ≤ 90 then n + 32 else n
+
+def collLtS (c : Coll) (s t : Str) : Bool := decide (collFold c s < collFold c t)
+def collEqS (c : Coll) (s t : Str) : Bool := decide (collFold c s = collFold c t)
+
+/-- `valueOp` with the string comparisons under collation `c` -/
+def valueOpC (c : Coll) (binOrd : Bool) (op : Op) (a b : Atom) : Except Err Bool :=
+  match a, b with
+  | .str s, .str t | .str s, .uri t | .uri s, .str t | .uri s, .uri t => .ok (six (collLtS c) (collEqS c) op s t)
+  | _, _ => valueOp binOrd op a b
+
+/-- `pairSpec` (§3.7.2 rules a-d) with the value comparisons under collation `c` -/
+def pairSpecC (c : Coll) (m : Mode) (op : Op) (a b : Atom) : Except Err Bool :=
+  match a, b with
+  | .ua s, .ua t => valueOpC c (binOrdered m) op (.str s) (.str t)
+  | .ua _, .qn .. => pairSpec m op a b
+  | .qn .., .ua _ => pairSpec m op a b
+  | .ua s, _ =>
+    (match castUntyped s b with
+     | .ok a' => valueOpC c (binOrdered m) op a' b
+     | .error e => .error e)
+  | _, .ua t =>
+    (match castUntyped t a with
+     | .ok b' => valueOpC c (binOrdered m) op a b'
+     | .error e => .error e)
+  | _, _ => valueOpC c (binOrdered m) op a b
+
+/-- general comparison under default collation `c` and implicit timezone `itz`; the compatibility
+modes are specified for the codepoint collation only (`none` = not applicable otherwise) -/
+def generalAllowedC (c : Coll) (itz : Option Int) (m : Mode) (op : Op) (L Rr : List Item) : Option (List Out) :=
+  match m with
+  | .v2 | .v31 =>
+    allowedOfPairs ((pairsOf ((L.map (withImplicitTz itz)).map (atomizeS m))
+      ((Rr.map (withImplicitTz itz)).map (atomizeS m))).map fun (a, b) => pairSpecC c m op a b)
+  | _ => if c = .codepoint then generalAllowedCtx itz m op L Rr else none
+
+/-- value comparison under default collation `c` and implicit timezone `itz` -/
+def valueAllowedC (c : Coll) (itz : Option Int) (m : Mode) (op : Op) (L Rr : List Item) : Option (List Out) :=
+  if m = .v1 then none else
+  let emptyAny := L.isEmpty || Rr.isEmpty
+  let longAny := L.length > 1 || Rr.length > 1
+  if emptyAny || longAny then
+    some ((if emptyAny then [Out.empty] else []) ++ (if longAny then [Out.err .XPTY0004] else []))
+  else
+    match L, Rr with
+    | [x], [y] =>
+      (match valueOpC c (binOrdered m) op (untypedToString (atomizeS m (withImplicitTz itz x)))
+          (untypedToString (atomizeS m (withImplicitTz itz y))) with
+       | .ok b => some [Out.ofBool b]
+       | .error .unsupported => none
+       | .error e => some [.err e])
+    | _, _ => none
+
 end EPV.CmpSpec
